@@ -15,6 +15,7 @@ height counters (start_block / in-mempool-since stamps may mix two heights) are 
 -/
 import TeosVerif.Lemmas.Tower
 import TeosVerif.Lemmas.TowerInv
+import TeosVerif.Props.C08
 
 namespace Teos.C10
 open Teos TxIndex
@@ -138,6 +139,23 @@ theorem early_add_found_by_block (s : Tower) (txs : List TxId) (d : TxId) (k : U
   cases h : s.db.uuidsWithLoc (locOf d) with
   | nil => rw [h] at hin; cases hin
   | cons _ _ => rfl
+
+/-- **accepted_then_block_finds_it** (A before B, end to end, from any state of the tower invariant):
+a submission accepted while its locator is not in the cache has left a row that the block handler
+— run on the state the submission produced, in whatever block the dispute arrives — visits:
+the dispute survives the locator filter and the appointment's key is among those loaded for it. -/
+theorem accepted_then_block_finds_it (s : Tower) (node : Node) (signer : Option User) (loc : Loc)
+    (blob : Blob) (tsd usig : Nat) (st sg av e : Nat) (hinv : TInv s)
+    (h : (addAppointment s node signer loc blob tsd usig).2.1 = .accepted st sg av e)
+    (hc : s.mem.cache.get loc = none) (txs : List TxId) (d : TxId) (hd : d ∈ txs) (hloc : loc = locOf d) :
+    ∃ u, signer = some u ∧
+      d ∈ (txs.filter fun t => !((addAppointment s node signer loc blob tsd usig).1.db.uuidsWithLoc (locOf t)).isEmpty) ∧
+      (loc, u) ∈ (addAppointment s node signer loc blob tsd usig).1.db.uuidsWithLoc (locOf d) := by
+  have hinv' := tinv_addAppointment s node signer loc blob tsd usig hinv
+  obtain ⟨u, a, hsg, hrow, -⟩ := C08.receipt_only_if_taken_stored s node signer loc blob tsd usig st sg av e h hc
+    hinv'.alive hinv.alive
+  have hk := hinv'.db.appt_keys (loc, u) (by rw [hrow]; rfl)
+  exact ⟨u, hsg, early_add_found_by_block _ txs d (loc, u) a hd hrow hk hloc⟩
 
 /-- **double_submit_charged_once**: the second of two identical submissions (same key, same blob
 length — in particular the very same appointment) is charged nothing -/
